@@ -8,7 +8,7 @@ W=$(mktemp -d /tmp/seedrun.XXXXXX); rmdir "$W"
 git -C /repo worktree add -q --detach "$W" HEAD || exit 9
 if ! git -C "$W" apply "$P"; then echo "$ID $P: PATCH DOES NOT APPLY"; git -C /repo worktree remove --force "$W"; exit 9; fi
 mkdir -p /tmp/seedrun_out
-LOG=/tmp/seedrun_out/$(basename $(dirname "$P"))_$ID.log
-cd /verif && VERIF_REPO="$W" VERIF_EVIDENCE_DIR=/tmp/seedrun_out/ev VERIF_REPLAY_DIR=/tmp/seedrun_out/replays ./check "$ID" "$TIER" > "$LOG" 2>&1; rc=$?
-git -C /repo worktree remove --force "$W"
+LOG=/tmp/seedrun_out/$(basename $(dirname $(dirname "$P")))_$(basename $(dirname "$P"))_$ID.log
+cd /verif && VERIF_REPO="$W" VERIF_EVIDENCE_DIR=/tmp/seedrun_out/ev.$$ VERIF_REPLAY_DIR=/tmp/seedrun_out/replays.$$ ./check "$ID" "$TIER" > "$LOG" 2>&1; rc=$?
+git -C /repo worktree remove --force "$W"; rm -rf /tmp/seedrun_out/ev.$$
 echo "$ID $P ($TIER): exit $rc; $(grep -c '^VIOLATION' "$LOG") VIOLATION lines; $(grep -m1 'counterexample:' "$LOG" | cut -c1-300)"
